@@ -103,7 +103,7 @@ lut_ext4!(c14_lut_clear__n2_ext4_f2_t15, 15);
 macro_rules! lut_ext2 {
     ($name:ident, $t:expr) => {
         #[kani::proof]
-        #[kani::unwind(20)]
+        #[kani::unwind(6)]
         #[kani::stub(alloc::fmt::format, fmt_stub)]
         #[kani::stub(<[VecZnx<Vec<u8>>]>::rotate_right, rotate_right_stub)]
         #[kani::stub(poulpy_cpu_ref::reference::znx::znx_switch_ring_ref, switch_ring_contract)]
